@@ -1,7 +1,7 @@
 """Per-property checks: which scenarios, how many, on which configurations."""
 import time
 
-from . import runner, scen_bus, scen_hostile, scen_rules, scen_deadline, scen_access, scen_res, scen_alloc, scen_connend, scen_http  # noqa: F401 (scenario registration)
+from . import runner, scen_bus, scen_hostile, scen_rules, scen_deadline, scen_access, scen_res, scen_alloc, scen_connend, scen_http, scen_ws, scen_seg  # noqa: F401 (scenario registration)
 from .runner import report, run_cases, seed
 
 CHECKS = {}
@@ -142,6 +142,7 @@ def _unit(pid, modname):
 
 
 _unit("C18", "chk_c18")
+_unit("C17", "chk_c17")
 
 
 @check("C16")
@@ -344,3 +345,55 @@ def c13(tier):
                   "the connection must be released; at the end peer count, heap, descriptors, registrations are compared with the baseline and SIGTERM must "
                   "exit cleanly under ASan/LSan; distinct = (class, label, status, closed) signatures",
                   t0, tier, SIM_ASSUME, min_events={"exchanges": 2000, "truncation_points": 300, "corruption_points": 300})
+
+
+@check("C12")
+def c12(tier):
+    t0 = time.time()
+    s = seed()
+    q = tier == "quick"
+    cases = mk("ws", 60 if q else 1000, s, "default", mode="handshake", count=30)
+    for rep in range(12 if q else 120):
+        for part in range(8):
+            cases.append(dict(kind="ws", seed=(s + rep) * 7919 + part, config=["default", "smallbuf", "default"][rep % 3], params=dict(mode="violations", part=part, nparts=8)))
+    cases += mk("ws", 150 if q else 3000, s + 1, "default", mode="echo", pings=60, big=0)
+    cases += mk("ws", 4 if q else 40, s + 2, "default", mode="echo", pings=10, big=300)
+    cases += mk("ws", 40 if q else 800, s + 3, "smallbuf", mode="echo", pings=60, big=0)
+    cases += mk("ws", 200 if q else 4000, s + 4, "default", mode="transparency")
+    cases += mk("hostile", 250 if q else 6000, s + 5, "default", n_ops=40)
+    res = run_cases(cases)
+    return report("C12", "exploration", res,
+                  "handshakes with shuffled header order / case / whitespace / extra headers / several protocol tokens / target suffixes and random keys (101, accept "
+                  "digest recomputed with SHA-1+base64 in Python, jet echoed); every server frame decoded strictly (unmasked, FIN, minimal length encoding incl. "
+                  "16- and 64-bit lengths, nothing after close); pings of every payload length 0..125 interleaved with data frames under all-zero / all-one / "
+                  "random masks and forced length encodings (pong must carry the identical payload; the payload handed to the JSON layer must equal the unmasked "
+                  "payload); the listed protocol violations (unmasked, RSV 1-7, reserved opcodes, fragmented / oversized control frames incl. lengths beyond the "
+                  "read buffer, invalid close codes, 1-byte and ill-formed UTF-8 close payloads) must be answered with a close frame of the matching status and "
+                  "end the connection; legal close codes get a normal close; the same JSON-RPC dialogue on raw and WebSocket transports must produce the same "
+                  "messages; plus the WebSocket frame grid of the hostile workload under ASan; distinct = handshake / violation / ping-length / transparency signatures",
+                  t0, tier, SIM_ASSUME, min_events={"handshakes": 300, "violations_sent": 100, "pings": 1000, "transparency_messages": 500})
+
+
+@check("C09")
+def c09(tier):
+    t0 = time.time()
+    s = seed()
+    q = tier == "quick"
+    cases = (mk("segdiff", 250 if q else 6000, s, "default", variants=6 if q else 16)
+             + mk("segdiff", 100 if q else 3000, s + 1, "smallbuf", variants=6 if q else 16)
+             + mk("segdiff", 50 if q else 1500, s + 2, "one", variants=6 if q else 16))
+    for c in cases:
+        c["sim"] = True
+    res = run_cases(cases)
+    # the message-content tap of the bus workload: what the JSON layer is handed must be exactly the k-th message sent
+    res += run_cases(mk("bus", 150 if q else 4000, s + 3, "default", n_ops=60) + mk("hostile", 100 if q else 3000, s + 4, "default", n_ops=40))
+    return report("C09", "exploration", res,
+                  "differential: a generated multi-connection script (raw / unix / WebSocket; requests of all kinds, batches, routed requests with owner replies, "
+                  "zero-length frames, messages ending at the buffer end, truncated JSON followed by its continuation, trailing bytes inside the declared "
+                  "length, lengths above the maximum) is executed once as reference (one whole unit per wake-up) and under 6 (quick) / 16 (thorough) kernel "
+                  "policies: 1..7-byte and random chunks, polls between chunks, prefixes of the next unit coalesced into the same read, batch size 1 / "
+                  "shuffled batches, spurious wake-ups, and the read buffer behind the received bytes scribbled with 0x00 / } / quote / ]}-tails / 0xff / "
+                  "digits / random; the decoded output of every connection must be identical; plus the parse_message tap (content handed to the JSON layer "
+                  "== k-th message sent) over bus and hostile workloads; distinct = (policy, size class, transports) signatures",
+                  t0, tier, SIM_ASSUME + ["cross-connection output order is not compared; message completions keep the reference's global order (the property's side condition)"],
+                  min_events={"variant_runs": 1000, "variants_identical": 1, "messages_parsed": 5000})
